@@ -322,7 +322,7 @@ func (ps *parser) expr(minPrec int) Expr {
 
 func (ps *parser) unary() Expr {
 	t := ps.peek()
-	if t.k == tkOp && (t.s == "!" || t.s == "-" || t.s == "^" || t.s == "*") {
+	if t.k == tkOp && (t.s == "!" || t.s == "-" || t.s == "^" || t.s == "*" || t.s == "&") {
 		ps.p++
 		return &EUnary{Op: t.s, X: ps.unary()}
 	}
